@@ -552,6 +552,85 @@ def c17(ctx):
                            "sql": bytes.fromhex(c["via"].split("|")[0]).decode("utf8", "replace")} for c in cases[300:303]]
 
 
+# ------------------------------------------------------------------------------------ C18
+
+OP_SYMBOLS = {"Eq": "=", "Neq": "<>", "Lt": "<", "Lte": "<=", "Gt": ">", "Gte": ">=", "Concat": "||", "RegexpMatch": "~",
+              "RegexpIMatch": "~*", "RegexpNotMatch": "!~", "RegexpINotMatch": "!~*", "Plus": "+", "Minus": "-", "Mult": "*",
+              "Divide": "/", "Mod": "%", "Pow": "^", "JsonExtract": "->", "JsonExtractText": "->>", "JsonExtractPath": "#>",
+              "JsonExtractPathText": "#>>", "Contains": "@>", "ContainedBy": "<@", "Like": "LIKE", "ILike": "ILIKE",
+              "NotLike": "NOT LIKE", "NotILike": "NOT ILIKE", "SimilarTo": "SIMILAR TO", "NotSimilarTo": "NOT SIMILAR TO",
+              "In": "IN", "NotIn": "NOT IN"}
+SUFFIX_SYMBOLS = {"IsNull": "IS NULL", "IsNotNull": "IS NOT NULL"}
+
+
+def norm_name(s):
+    return s.replace("_", "").replace(" ", "").lower()
+
+
+@check("C18")
+def c18(ctx):
+    props.check_props_file(ctx, "Props/C18.v")
+    cases = special_mode_cases(ctx, "c18", [])
+    ev = 0
+    names = set()
+    unknown_ops = []
+    for c in cases:
+        ev += 1
+        names.add(c["name"])
+        rep = {"wrapper": c["name"], "arguments": c["arg_text"], "sql": c.get("sql"), "generic": c.get("generic"),
+               "panic": c.get("panic"), "err": c.get("err")}
+        if c["kind"] == "func":
+            if c.get("panic"):
+                # more optional arguments than the function accepts: an arity guard, not a wrapper defect
+                if "too many arguments" in c["panic"]:
+                    continue
+                ctx.violation("wrapper panicked: " + c["panic"][:200], rep)
+                continue
+            go_name = c["name"].split(".")[1]
+            sql = c["sql"]
+            if go_name in ("JsonBuildObject", "JsonbBuildObject"):
+                want = ("jsonb" if go_name.startswith("Jsonb") else "json") + "_build_object()"
+                if sql != want:
+                    ctx.violation("wrapper does not emit the function it is named after", rep)
+                continue
+            if go_name == "Extract":
+                if sql != "EXTRACT(arg1 FROM arg2)":
+                    ctx.violation("EXTRACT wrapper does not pass field and source in declared order", rep)
+                continue
+            i = sql.find("(")
+            sym, rest = sql[:i].strip(), sql[i:]
+            if i <= 0 or norm_name(sym) != norm_name(go_name):
+                ctx.violation("wrapper does not emit the function it is named after", rep)
+            elif rest != "(" + ",".join(c["arg_text"] or []) + ")":
+                ctx.violation("wrapper does not pass exactly its arguments in declared order", rep)
+            elif c.get("generic") != sql:
+                ctx.violation("wrapper differs from the same call through the generic constructor", rep)
+        else:
+            if c.get("panic"):
+                ctx.violation("operator method panicked: " + c["panic"][:200], rep)
+            elif c["name"] in OP_SYMBOLS:
+                arg = "(zz)" if c["name"] in ("In", "NotIn") else "zz"
+                if c["sql"] != f"lhs {OP_SYMBOLS[c['name']]} {arg}":
+                    ctx.violation("operator method does not emit the operator it is named after", rep)
+            elif c["name"] in SUFFIX_SYMBOLS:
+                if c["sql"] != f"lhs {SUFFIX_SYMBOLS[c['name']]}":
+                    ctx.violation("predicate method does not emit the predicate it is named after", rep)
+            else:
+                unknown_ops.append(c["name"])
+    ctx.obligation("every operator / predicate method of ExpBase found by reflection has an entry in the naming table",
+                   not unknown_ops, json.dumps(unknown_ops))
+    ctx.cov["evaluations"] = ev
+    ctx.cov["distinct_nontrivial"] = len(names)
+    ctx.cov["exhaustive"] = True
+    ctx.cov["wrappers_enumerated"] = len(names)
+    ctx.cov["rule"] = ("every exported function of package fn and the conditional functions (registry regenerated from the source) "
+                       "for every arity within the declaration (0..3 optional arguments) and every operator / predicate method of "
+                       "ExpBase (reflection), applied to distinguishable arguments arg1..argN; the symbol in the text must "
+                       "normalise to the Go name, the arguments must appear once each in declared order, and the text must equal "
+                       "the generic constructor's; distinct = wrappers")
+    ctx.cov["samples"] = [{"wrapper": c["name"], "sql": c.get("sql")} for c in cases[:3]]
+
+
 # ------------------------------------------------------------------------------------ C19
 
 @check("C19")
